@@ -104,7 +104,7 @@ def in_planner_domain(d):
     return ds.accepts(d) and d['ret'] in ds.suppliers(d)
 
 
-def planner_conformance(work, decls, progs_by_id):
+def planner_conformance(work, decls, progs_by_id, name='plannercheck'):
     """PlannerCheck.tla on the really generated programs of a batch -> (checked, ids that differ)"""
     dd, views = [], []
     for d in decls:
@@ -116,7 +116,7 @@ def planner_conformance(work, decls, progs_by_id):
     if not dd:
         return 0, []
     r = pl.tlc(work, 'PlannerCheck', 'PlannerCheck.cfg', files={'decls.json': json.dumps(dd), 'views.json': json.dumps(views)}, timeout=3000,
-               java_opts='-Xss512m', name='plannercheck')
+               java_opts='-Xss512m', name=name)
     op = os.path.join(r['dir'], 'planner_out.json')
     if not os.path.exists(op):
         raise pl.ExitTwo('PlannerCheck.tla failed: %s' % r['out'][-2500:])
